@@ -733,7 +733,11 @@ class Div_1d(DivBasic):
             return
 
         u = _args[0]
-        return dx(u[0])
+        # a 1D vector may be a 1x1 matrix or directly a scalar expression
+        if isinstance(u, (Tuple, Matrix, ImmutableDenseMatrix)):
+            u = u[0]
+
+        return dx(u)
 
 class Div_2d(DivBasic):
 
@@ -1067,7 +1071,11 @@ class LogicalDiv_1d(DivBasic):
 
         u = _args[0]
 
-        return dx1(u[0])
+        # a 1D vector may be a 1x1 matrix or directly a scalar expression
+        if isinstance(u, (Tuple, Matrix, ImmutableDenseMatrix)):
+            u = u[0]
+
+        return dx1(u)
 
 class LogicalDiv_2d(DivBasic):
 
